@@ -285,8 +285,8 @@ def callValueG (rets : List STy) : Res Opnd :=
   | [r] => .ok ⟨.s r, .none⟩
   | _ => .abstain      -- multi-value calls are only legal as the whole argument list / operand list
 
-def assignG (_decl : Bool) (_sh : Shape) (t : Ty) (x : Opnd) : Res Unit :=
-  if assignableG x t then .ok () else .err
+def assignG (_decl : Bool) (_sh : Shape) (t : Ty) (x : Opnd) : Res Ty :=
+  if assignableG x t then .ok t else .err
 
 def defineG (x : Opnd) : Res Ty :=
   match x.ty with
